@@ -386,7 +386,7 @@ class _NoValue(Exception):
     pass
 
 
-def _evaluate(v, asg, rnd):
+def _evaluate(v, asg, rnd, small=False):
     """the number a (normalised) formula denotes when every atom that is not arithmetic the evaluator knows is given an integer: `asg`
     (atom key -> int) is filled on demand from `rnd`"""
     from fractions import Fraction
@@ -459,8 +459,14 @@ def _evaluate(v, asg, rnd):
             raise _NoValue()            # text / None: not a number
         if a not in asg:
             # a word read from the file, a size, a parameter: some positive integer (words wide enough to have both halves)
+            # (a word decoded from the file may also be 0 or negative: end markers, negative row counts)
             wide = d[0] == "fn" and d[1] in ("idx", "call:int", "dec", "lv")
-            asg[a] = rnd.randrange(1, 1 << 18) if wide and rnd.random() < 0.5 else rnd.randrange(1, 40)
+            u = rnd.random()
+            if small:
+                # a small world: every word between -2 and 6, every size / count between 1 and 4 - where the boundary cases of two tests meet
+                asg[a] = rnd.randrange(-2, 7) if wide else rnd.randrange(1, 5)
+            else:
+                asg[a] = rnd.randrange(-2, 1) if wide and u < 0.25 else (rnd.randrange(1, 1 << 18) if wide and u < 0.6 else rnd.randrange(1, 40))
         return asg[a]
     return rat(v)
 
@@ -476,23 +482,46 @@ def refute(a, b, whole_values=True, trials=60):
     except Unsupported:
         return None
     rnd = random.Random(20260928)
-    for _ in range(trials):
+    for trial in range(trials * 3):
         asg, asg_b = {}, {}
+        small = trial >= trials
         try:
-            x = _evaluate(na, asg, rnd)
+            x = _evaluate(na, asg, rnd, small)
             only_a = set(asg)
             asg_b = dict(asg)
-            y = _evaluate(nb, asg_b, rnd)
+            y = _evaluate(nb, asg_b, rnd, small)
         except (_NoValue, ZeroDivisionError, OverflowError, ValueError):
             continue
         # the two sides must speak about the same things: when each is made of something the other does not mention, what links the two
         # (a format invariant, a local carried through a loop in another form) is not known and numbers prove nothing
-        vars_b = {k for k in asg_b if k not in only_a} | {k for k in only_a if _mentions_atom(nb, k)}
-        if (set(asg_b) - only_a) and (only_a - {k for k in only_a if _mentions_atom(nb, k)}):
-            return None
+        excl_b = set(asg_b) - only_a
+        excl_a = only_a - {k for k in only_a if _mentions_atom(nb, k)}
+        if excl_a and excl_b:
+            inner_a, inner_b = set(walk_atoms(na)), set(walk_atoms(nb))
+            if not all(_position_named(k, inner_b) for k in excl_a) or not all(_position_named(k, inner_a) for k in excl_b):
+                return None
         if x != y:
             return {repr(F.Rat(F.Poly.atom(k)))[:80]: v for k, v in list(asg_b.items())[:6]}
     return None
+
+
+def _position_named(a, other=frozenset()):
+    """an atom that is a word / a line read from the file, named by where it was read, or a decode (by functions the evaluator knows) of such
+    data or of a loop-carried value the other side speaks about too: two of them read at different places / cut differently are different
+    data - unlike two locals carried through loops in different forms, or the results of calls the evaluator does not follow"""
+    based = False
+    for d in walk_atoms(F.Rat(F.Poly.atom(a))):
+        if d[0] == "fn":
+            if d[1] in ("rd", "ln", "lns"):
+                based = True
+            elif d[1] in ("lv", "fin", "item"):
+                if d not in other:
+                    return False
+                based = True
+            elif d[1] in ("each", "comp", "truediv", "fstr") or d[1].startswith("attr:") \
+                    or (d[1].startswith("call:") and d[1] not in ("call:int", "call:len", "call:slice", "call:.decode", "call:.strip", "call:.rstrip")):
+                return False
+    return based
 
 
 def _mentions_atom(v, a):
@@ -622,7 +651,7 @@ def leaves(values, limit=12):
 
 # ------------------------------------------------------------------------------------------------------------------ items
 class Loop:
-    __slots__ = ("kind", "test", "items", "carry", "frame", "node", "exits", "entry", "guard", "ph", "forced", "fr")
+    __slots__ = ("kind", "test", "items", "carry", "frame", "node", "exits", "entry", "guard", "ph", "forced", "fr", "entry0")
 
     def __init__(self, kind, test, items, carry, frame, node, entry, guard=(), ph=None, forced=False, fr=None):
         self.kind, self.test, self.items, self.carry, self.frame, self.node, self.entry = kind, test, items, carry, frame, node, entry
@@ -630,11 +659,14 @@ class Loop:
         self.ph = ph or {}            # local name -> placeholder
         self.forced = forced          # the first iteration is unconditional (a loop tested at its end)
         self.fr = fr                  # the _Frame the body was walked in (identity of the loop for events recorded in it)
+        self.entry0 = None            # the test made on first entry when it is not the loop's test on the entry values (a loop steered by a flag)
 
     def entry_test(self):
         """the loop condition on first entry (placeholders replaced by the values the locals enter the loop with)"""
         if self.forced:
             return ONE
+        if self.entry0 is not None:
+            return self.entry0
         mapping = [(p, self.entry.get(nm)) for nm, p in self.ph.items()
                    if not is_unknown(p) and self.entry.get(nm) is not None and not is_unknown(self.entry.get(nm)) and not isinstance(self.entry.get(nm), tuple)]
         return renamer(mapping)(self.test)
@@ -711,10 +743,12 @@ def same_items(a, b, whole_values=True, why=None, _depth=0):
         return False
 
     if len(a) != len(b):
+        del LAST_DIFFERENCE[:]            # (a difference of shape, not of two amounts)
         return no(f"{show(a)}  vs  {show(b)}")
     for i in range(len(a)):
         x, y = a[i], b[i]
         if x[0] != y[0]:
+            del LAST_DIFFERENCE[:]
             return no(f"{show([x])}  vs  {show([y])}")
         if x[0] in ("B", "L", "abs"):
             if not same(x[1], y[1], whole_values):
@@ -722,6 +756,7 @@ def same_items(a, b, whole_values=True, why=None, _depth=0):
                 return no(f"{show([x])}  vs  {show([y])}")
         elif x[0] == "exit":
             if x[1] != y[1]:
+                del LAST_DIFFERENCE[:]
                 return no(f"{x[1]} vs {y[1]}")
         elif x[0] == "if":
             if not same(x[1], y[1], whole_values):
@@ -868,13 +903,36 @@ def same_loops(l1, l2, whole_values=True, why=None, _depth=0):
             why.append(msg)
         return False
     if l1.kind != l2.kind:
+        del LAST_DIFFERENCE[:]
         return no(f"{l1.kind} loop vs {l2.kind} loop")
     e1, e2 = l1.entry_test(), l2.entry_test()
     t1, t2 = truth_of(e1), truth_of(e2)
     if not ((t1 is not None and t1 == t2) or same(e1, e2, whole_values)):
         LAST_DIFFERENCE[:] = [(e1, e2, whole_values)]
         return no(f"loop condition on entry {norm(e1)!r}  vs  {norm(e2)!r}")
-    l1, l2 = _canon_carried(_canon_derived(l1)), _canon_carried(_canon_derived(l2))
+    # the loop-carried locals are named in one way on both sides: first with the locals that are a function of another carried local written
+    # as that function; when the two loops do not compare equal that way, once more with every carried local named by what it was given in
+    # the previous iteration (two loops that differ are then compared in the same form, and the difference can be put in numbers)
+    first = []
+    if _same_loops_in(_canon_carried(_canon_derived(l1)), _canon_carried(_canon_derived(l2)), whole_values, first, _depth):
+        return True
+    keep = list(LAST_DIFFERENCE)
+    second = []
+    if _same_loops_in(_canon_carried(l1), _canon_carried(l2), whole_values, second, _depth):
+        return True
+    if LAST_DIFFERENCE and refute(*LAST_DIFFERENCE[0]) is None and keep:
+        LAST_DIFFERENCE[:] = keep
+        second = first
+    if why is not None and not why:
+        why.extend((second or first)[:1])
+    return False
+
+
+def _same_loops_in(l1, l2, whole_values, why, _depth):
+    def no(msg):
+        if why is not None and not why:
+            why.append(msg)
+        return False
     if not same(l1.test, l2.test, whole_values):
         LAST_DIFFERENCE[:] = [(l1.test, l2.test, whole_values)]
         return no(f"loop condition {norm(l1.test)!r}  vs  {norm(l2.test)!r}")
@@ -882,9 +940,12 @@ def same_loops(l1, l2, whole_values=True, why=None, _depth=0):
         return False
     c1, c2 = _loop_refs(l1), _loop_refs(l2)
     if len(c1) != len(c2):
+        del LAST_DIFFERENCE[:]
         return no(f"loop-carried values {[repr(p) for p, _ in c1]}  vs  {[repr(p) for p, _ in c2]}")
     for (p1, v1) in c1:
         hit = [v2 for p2, v2 in c2 if same(p1, p2, whole_values)]
+        if len(hit) != 1:
+            del LAST_DIFFERENCE[:]
         if len(hit) == 1 and not same(v1, hit[0], whole_values):
             LAST_DIFFERENCE[:] = [(v1, hit[0], whole_values)]
         if len(hit) != 1 or not same(v1, hit[0], whole_values):
@@ -928,6 +989,7 @@ def map_loop(lp, f):
                f(lp.frame), lp.node, {k: fm(v) for k, v in lp.entry.items()}, tuple((fm(c), pol) for c, pol in lp.guard),
                {k: fm(v) for k, v in lp.ph.items()}, lp.forced, lp.fr)
     new.exits = lp.exits
+    new.entry0 = fm(lp.entry0)
     return new
 
 
@@ -1152,6 +1214,55 @@ def field_value(v, name):
             return None
         return phi(p[1][0], a, b)
     return None
+
+
+UNBOUND = F.sym("<unbound>")
+_PARTIAL = "<partial>"
+
+
+def _merge_envs(cv, envA, envB):
+    """the locals after `if cv: A else: B`.  A local bound in one arm only is unknown - but what it holds where it is bound is kept beside
+    it (`<partial>name`: the selection with UNBOUND in the other arm), so that a later test that rules the unbound paths out (`if x is None:
+    return` for an x that is None exactly there) makes it known again"""
+    out = {}
+    for k in set(envA) | set(envB):
+        if k.startswith(_PARTIAL):
+            continue
+        x, y = envA.get(k), envB.get(k)
+        out[k] = x if x is y else phi(cv, x, y)
+        if x is y or not _plain(cv):
+            continue
+        px, py = envA.get(_PARTIAL + k, x), envB.get(_PARTIAL + k, y)
+        if (x is None or y is None or is_unknown(x) or is_unknown(y)) and (px is None or _plain(px)) and (py is None or _plain(py)) and not (px is None and py is None):
+            out[_PARTIAL + k] = F.fn("phi", cv, UNBOUND if px is None else px, UNBOUND if py is None else py)
+    return out
+
+
+def none_paths(v, cur=()):
+    """the paths [(condition, taken)] through the selections of v that lead to None"""
+    if not _plain(v):
+        return []
+    if v.equals(NONE):
+        return [cur]
+    p = fn_parts(v)
+    if p is not None and p[0] == "phi" and len(p[1]) == 3 and not any(isinstance(a, str) for a in p[1]) and len(cur) < 16:
+        return none_paths(p[1][1], cur + ((p[1][0], True),)) + none_paths(p[1][2], cur + ((p[1][0], False),))
+    return []
+
+
+def prune_paths(v, paths, cur=()):
+    """v on the paths that are none of `paths`: an arm of a selection that lies on an excluded path is dropped"""
+    def excluded(path):
+        return any(all(any(pc.equals(qc) and pp == qp for qc, qp in path) for pc, pp in ex) for ex in paths if ex)
+    p = fn_parts(v) if _plain(v) else None
+    if p is None or p[0] != "phi" or len(p[1]) != 3 or any(isinstance(a, str) for a in p[1]):
+        return v
+    c, a, b = p[1]
+    if excluded(cur + ((c, True),)):
+        return prune_paths(b, paths, cur + ((c, False),))
+    if excluded(cur + ((c, False),)):
+        return prune_paths(a, paths, cur + ((c, True),))
+    return phi(c, prune_paths(a, paths, cur + ((c, True),)), prune_paths(b, paths, cur + ((c, False),)))
 
 
 def without_none(v):
@@ -1567,6 +1678,10 @@ class CEval(AutoEvaluator):
         return F.fn("idx", base, ix)
 
     def _ev(self, node):
+        if isinstance(node, ast.Name) and isinstance(node.ctx, ast.Load) and node.id not in self.env and node.id not in self.buffers \
+                and self.walker.never_bound(node.id):
+            # a local that nothing has bound on any path that leads here (or a name nothing defines): reading it raises
+            self.walker.events.append(("unbound", node.id, node))
         if isinstance(node, (ast.Tuple, ast.List)) and any(isinstance(e, ast.Starred) for e in node.elts):
             out = []
             for e in node.elts:
@@ -2032,6 +2147,8 @@ class Walker:
         if isinstance(st, ast.Try):
             r = self.run(st.body)
             for h in st.handlers:
+                if h.name:
+                    ev.env[h.name] = F.sym("exception:" + h.name)
                 items, _s, _o = self.sub_items(h.body)
                 if tidy(items):
                     raise Stuck(f"file consumption inside an exception handler (line {st.lineno})")
@@ -2063,9 +2180,80 @@ class Walker:
             self.local_funcs[key] = st
             ev.env[st.name] = F.sym(key)
             return None
-        if isinstance(st, (ast.Pass, ast.Assert, ast.Import, ast.ImportFrom, ast.Global, ast.Nonlocal, ast.Delete, ast.ClassDef)):
+        if isinstance(st, (ast.Import, ast.ImportFrom)):
+            for al in st.names:
+                nm = (al.asname or al.name).split(".")[0]
+                ev.env.setdefault(nm, F.sym(nm))
+            return None
+        if isinstance(st, ast.ClassDef):
+            ev.env.setdefault(st.name, F.sym(st.name))
+            return None
+        if isinstance(st, (ast.Pass, ast.Assert, ast.Global, ast.Nonlocal, ast.Delete)):
             return None
         raise Stuck(f"statement {type(st).__name__} at line {st.lineno}")
+
+    def never_bound(self, name):
+        """a name read where nothing can have bound it: a local of the function being evaluated (it is assigned somewhere in it, so Python
+        treats it as local) that no path to this point has bound, or a name that neither the enclosing functions, nor the module, nor the
+        builtins define"""
+        if name.startswith("<") or name in ("self", "cls", "__class__"):
+            return False
+        cache = self.ctx.__dict__.setdefault("_c11_scopes", {})
+        for f in reversed(self.stack):
+            k = id(f)
+            if k not in cache:
+                a = f.args
+                params = {x.arg for x in a.posonlyargs + a.args + a.kwonlyargs + ([a.vararg] if a.vararg else []) + ([a.kwarg] if a.kwarg else [])}
+                stored, declared = set(), set()
+                for st in f.body:
+                    for n in _own_function_nodes(st):
+                        if isinstance(n, ast.Name) and isinstance(n.ctx, (ast.Store, ast.Del)):
+                            stored.add(n.id)
+                        elif isinstance(n, (ast.Global, ast.Nonlocal)):
+                            declared.update(n.names)
+                        elif isinstance(n, (ast.FunctionDef, ast.AsyncFunctionDef, ast.ClassDef)):
+                            stored.add(n.name)
+                        elif isinstance(n, (ast.Import, ast.ImportFrom)):
+                            stored.update((al.asname or al.name).split(".")[0] for al in n.names)
+                        elif isinstance(n, ast.ExceptHandler) and n.name:
+                            stored.add(n.name)
+                        elif hasattr(ast, "MatchAs") and isinstance(n, (ast.MatchAs, ast.MatchStar)) and n.name:
+                            stored.add(n.name)
+                        elif hasattr(ast, "MatchMapping") and isinstance(n, ast.MatchMapping) and n.rest:
+                            stored.add(n.rest)
+                # nested functions see the locals of this one too: their own stores do not make a name local here
+                cache[k] = (params, stored - declared, declared)
+            params, stored, declared = cache[k]
+            if name in params:
+                return False
+            if name in declared:
+                return False
+            if name in stored:
+                return True
+            if not (f.name == "<lambda>" or any(f is g for g in self.local_funcs.values())):
+                break             # (a method does not see the locals of its caller: only a function written inside another one does)
+        m = self.ctx.src.mod(self.rel)
+        mk = ("module", self.rel)
+        if mk not in cache:
+            names, star = set(), False
+            for n in ast.walk(m.tree):
+                if isinstance(n, ast.ImportFrom) and any(al.name == "*" for al in n.names):
+                    star = True
+            for st in m.tree.body:
+                for n in ast.walk(st) if not isinstance(st, (ast.FunctionDef, ast.AsyncFunctionDef, ast.ClassDef)) else [st]:
+                    if isinstance(n, ast.Name) and isinstance(n.ctx, ast.Store):
+                        names.add(n.id)
+                    elif isinstance(n, (ast.FunctionDef, ast.AsyncFunctionDef, ast.ClassDef)):
+                        names.add(n.name)
+                    elif isinstance(n, (ast.Import, ast.ImportFrom)):
+                        names.update((al.asname or al.name).split(".")[0] for al in n.names)
+            for n in ast.walk(m.tree):
+                if isinstance(n, ast.Global):
+                    names.update(n.names)
+            cache[mk] = (names, star)
+        names, star = cache[mk]
+        import builtins
+        return not star and name not in names and not hasattr(builtins, name)
 
     def comp_with_effects(self, node):
         """a comprehension whose element (or filter) reads the file is the loop it abbreviates: [f.readline() for _ in range(n)] consumes n lines
@@ -2155,7 +2343,15 @@ class Walker:
             def run():
                 if nar is not None and nar[1] == not_none and nar[0] in self.ev.env:
                     # on this arm the tested local is not None: the selections that would make it None are not taken
+                    paths = none_paths(self.ev.env[nar[0]])
                     self.ev.env[nar[0]] = as_sequence(without_none(self.ev.env[nar[0]]))
+                    if paths:
+                        # ... and a local that is bound on all the other paths is bound here
+                        for k in [k for k in self.ev.env if k.startswith(_PARTIAL)]:
+                            v = prune_paths(self.ev.env[k], paths)
+                            if _plain(v) and not _mentions_atom(v, F._intern(("s", "<unbound>"))):
+                                self.ev.env[k[len(_PARTIAL):]] = v
+                                del self.ev.env[k]
                 return self.run(stmts), None
             return run
         status, _v = self._branch(cv, arm(st.body, True), arm(st.orelse, False), st)
@@ -2215,7 +2411,7 @@ class Walker:
             elif stB == "raise" and stA != "raise":
                 ev.env = envA
             else:
-                ev.env = {k: (envA.get(k) if envA.get(k) is envB.get(k) else phi(cv, envA.get(k), envB.get(k))) for k in set(envA) | set(envB)}
+                ev.env = _merge_envs(cv, envA, envB)
             return (stA if stA == stB else "mixed"), None
         if stA is not None:
             ev.env = envB
@@ -2225,14 +2421,7 @@ class Walker:
             ev.env = envA
             self.guard = g0 + ((cv, True),)
             return None, vA
-        out = {}
-        for k in set(envA) | set(envB):
-            x, y = envA.get(k), envB.get(k)
-            if x is y:
-                out[k] = x
-            else:
-                out[k] = phi(cv, x, y)
-        ev.env = out
+        ev.env = _merge_envs(cv, envA, envB)
         return None, (None if vA is None and vB is None else phi(cv, vA, vB))
 
     def _advance(self, fr, titems):
@@ -2565,7 +2754,12 @@ class Walker:
             return None
         name = dotted(it_.func)
         f2 = self.table.get(name) if name else None
-        if f2 is None or not self.followable(name, f2) or f2 in self.stack:
+        local = False
+        if f2 is None and isinstance(it_.func, ast.Name) and it_.func.id in self.ev.env:
+            fv = self.ev.env[it_.func.id]
+            f2 = self.local_funcs.get(sym_name(fv)) if _plain(fv) else None      # a generator function defined inside the walked function
+            local = f2 is not None
+        if f2 is None or (not local and not self.followable(name, f2)) or f2 in self.stack:
             return None
         own = [n for s_ in f2.body for n in _own_function_nodes(s_)]
         yields = [n for n in own if isinstance(n, (ast.Yield, ast.YieldFrom))]
@@ -2579,7 +2773,7 @@ class Walker:
         import copy
         a = f2.args
         params = [x.arg for x in a.posonlyargs + a.args]
-        if params and params[0] in ("self", "cls"):
+        if params and params[0] in ("self", "cls") and not local:
             params = params[1:]
         if a.vararg or a.kwarg or a.kwonlyargs or any(isinstance(x, ast.Starred) for x in it_.args) or any(k.arg is None for k in it_.keywords) \
                 or len(it_.args) > len(params):
@@ -2740,13 +2934,19 @@ class Walker:
                 if same(F.fn("not", brk), nxt, whole_values=False):
                     fr.items.pop()
                     breaks = [b_ for b_ in breaks[:-1]]
+        entry0 = None
         if not always and not forced and _plain(test):
             t2 = self._unflag(test, ph, entry, carry, fid)
             if t2 is not None:
-                test, forced = t2
+                test, forced, entry0 = t2
         lp = Loop("while", test, fr.items, carry, fid, orig if orig is not None else st, entry, g0, ph, forced, fr)
         lp.exits = status
+        lp.entry0 = entry0
         if is_unknown(test):
+            if "is not bound when the loop at line" in (test.why or "") and not forced:
+                # the test of a loop tested at its top reads a local that is first bound inside the loop: it raises on entry
+                nm = test.why.split("`")[1] if test.why.count("`") >= 2 else "?"
+                self.events.append(("unbound", nm, st))
             raise Stuck(f"loop condition at line {st.lineno} cannot be lowered ({test.why})")
         parent.items.append(("loop", lp))
         parent.opaque()
@@ -2771,7 +2971,7 @@ class Walker:
         """a loop steered by a flag - `more = E0; while more: B; more = E` - is the loop on the test the flag holds: the value the flag gets
         at the end of the body, written on the loop-carried locals as they are at the top of the loop (the values the body leaves in them
         replaced by their placeholders).  It must give the flag's entry value on the entry values (top-tested loop), or the flag is true on
-        entry (a loop tested at its end).  -> (test, forced) or None when the loop is not of this kind"""
+        entry (a loop tested at its end).  -> (test, forced, entry test or None) or None when the loop is not of this kind"""
         pol = True
         p = test
         q = fn_parts(test)
@@ -2812,10 +3012,10 @@ class Walker:
         if not pol:
             T, T0, e0 = F.fn("not", T), F.fn("not", T0), F.fn("not", e0)
         if same(T0, e0, whole_values=False):
-            return T, False
+            return T, False, None
         if truth_of(e0) is True:
-            return T, True
-        return None
+            return T, True, None
+        return T, False, e0          # (the flag's first value is another test than the one it is given afterwards)
 
     def _trip_count(self, it_node):
         """number of iterations of `for _ in <it_node>` when it does not depend on the file: it.repeat(x, n) / range(n)"""
